@@ -31,6 +31,9 @@ type Engine struct {
 	spec      *SpecFile
 	fnByName  map[string]*ssa.Function
 	keySort   map[string]string
+	keyKinds  map[string]keyKind
+	mapKeySort map[string]string
+	mapZero    map[string]string
 	typeTags  map[string]int
 	tagType   map[int]types.Type
 	specFns   map[string]*SpecFn
@@ -54,7 +57,7 @@ func fnKey(fn *ssa.Function) string {
 
 func NewEngine(repo string, patterns []string, specPaths []string) (*Engine, error) {
 	e := &Engine{repo: repo, sorts: newSorts(), strLits: map[string]string{}, fnByName: map[string]*ssa.Function{},
-		keySort: map[string]string{}, typeTags: map[string]int{}, tagType: map[int]types.Type{}, target: map[*types.Package]bool{},
+		keySort: map[string]string{}, keyKinds: map[string]keyKind{}, mapKeySort: map[string]string{}, mapZero: map[string]string{}, typeTags: map[string]int{}, tagType: map[int]types.Type{}, target: map[*types.Package]bool{},
 		pkgByNm: map[string]*types.Package{}, specFns: map[string]*SpecFn{}, lemmas: map[string]*Lemma{}}
 	e.fset = token.NewFileSet()
 	cfg := &packages.Config{Mode: packages.LoadAllSyntax, Dir: repo, BuildFlags: []string{"-tags=verif"}, Fset: e.fset,
